@@ -259,10 +259,11 @@ def exercise_consumers(case, events, agg, stats, expect, symgen, rcmod, rng):
                 stats["rowsel_calls"] += 1
                 stats["rowsel_unsorted_order"] += order != sorted(order)
                 if expect and (ev["exc"] or ev["om"] != 1 or set(int(j) for j in S) != want):
+                    got = ev["exc"] or (sorted(int(j) for j in S) if ev["om"] == 1 else repr(S))
                     agg.add("rowsel:replay-differs-from-spec",
-                            f"rowcol._get_S(P={A}, {idx}, nodes inserted as {order}, 'row') = {ev['exc'] or sorted(int(j) for j in S)}, "
+                            f"rowcol._get_S(P={A}, {idx}, nodes inserted as {order}, 'row') = {got}, "
                             f"the rows of P whose sum is e_{idx} are {sorted(want)}",
-                            dict(rep, fn="rowcol._get_S", idx=idx, node_order=order, expected=sorted(want), got=ev["exc"] or sorted(int(j) for j in S)))
+                            dict(rep, fn="rowcol._get_S", idx=idx, node_order=order, expected=sorted(want), got=got))
             # the same system with removed nodes: P embedded into a larger matrix that is trivial on the removed nodes
             if n <= 5:
                 N = n + rng.randint(1, 2)
@@ -493,15 +494,35 @@ def controls(cases):
     k2 = [list(r) for r in c["kern"]]
     k2[1][c["piv"][0] - 1] ^= 1
     neg.append(("kernel-vector-not-in-kernel", tr(c, _ev("kernel", out=k2, om=2, on=4, inp=R, im=2))))
+    # symmetry generators: the spec's basis of the symmetry group of the Hamiltonian with terms (x|z) = rows of A
+    sym, q = c["sym"], 2
+    pos.append(("symgen", tr(c, _ev("symgen", out=sym, om=len(sym), on=4))))
+    neg.append(("symgen-missing-generator", tr(c, _ev("symgen", out=sym[:1], om=1, on=4))))
+    j = next(j for j in range(4) if any(r[(j + q) % 4] for r in c["A"]))     # the word e_j anticommutes with some term
+    s2 = [list(r) for r in sym]
+    s2[0][j] ^= 1
+    neg.append(("symgen-generator-anticommutes", tr(c, _ev("symgen", out=s2, om=len(s2), on=4))))
+    neg.append(("symgen-dependent-generator-added", tr(c, _ev("symgen", out=sym + [[a ^ b for a, b in zip(sym[0], sym[1])]], om=3, on=4))))
+    # RowCol row selection on a regular matrix
+    def sel(c, i):
+        return [1 if (c["inv"][i][j] or j == i) else 0 for j in range(c["n"])]
+    c = next(c for c in cases if (c["m"], c["n"], c["rank"]) == (3, 3, 3) and c["A"] != c["rref"] and sum(sel(c, 0)) > 1 and sel(c, 0) != sel(c, 2))
+    kw = dict(inp=c["A"], im=3, val=1, out2=[[1, 1, 1]], o2m=1)
+    pos.append(("rowsel", tr(c, _ev("rowsel", out=[sel(c, 0)], om=1, on=3, **kw))))
+    neg.append(("rowsel-unit-vector-at-wrong-position", tr(c, _ev("rowsel", out=[sel(c, 2)], om=1, on=3, **kw))))
+    neg.append(("rowsel-only-the-node-itself", tr(c, _ev("rowsel", out=[[1, 0, 0]], om=1, on=3, **kw))))
+    neg.append(("rowsel-raise-on-regular", tr(c, _ev("rowsel", exc="IndexError", **kw))))
     return pos, neg
 
 
 class Run:
     """Accumulates evidence over the batches of one run."""
 
-    def __init__(self, kernel):
+    def __init__(self, kernel, symgen=None, rcmod=None, rng=None):
         from collections import Counter
         self.kernel, self.agg, self.stats = kernel, Agg(), Counter()
+        self.symgen, self.rcmod, self.rng = symgen, rcmod, rng
+        self.rowsel_not_judged = 0
         self.g_states = self.g_gen = self.t_states = self.t_gen = 0
         self.wall = {"model_check_and_generate": 0.0, "implementation": 0.0, "trace_validation": 0.0}
         self.n_traces = self.n_events = self.drift = self.ood = self.oodw = self.n_cases = self.nontriv = 0
@@ -563,12 +584,15 @@ class Run:
                 self.n_traces += 1
                 self.n_events += len(t["events"])
                 self.drift, self.ood, self.oodw = self.drift + verd[i][1], self.ood + verd[i][2], self.oodw + verd[i][3]
+                self.rowsel_not_judged += verd[i][4]
                 for l, clause in fl:
                     e = t["events"][l]
                     shown = e["exc"] if e["exc"] else e["val"] if e["op"] in ("rank", "indep") else e["out"]
                     self.agg.add(clause, f"A={t['A']} ({t['m']}x{t['n']})" + (f" b={e['b']}" if e["op"] in ("solve", "indep") else "") + f" output={shown}"
                                  + (f" (selected columns as rows) others={e['out2']}" if e["op"] == "basis" else "")
-                                 + (f" input={e['inp']}" if e["op"] == "kernel" else ""),
+                                 + (f" input={e['inp']}" if e["op"] == "kernel" else "")
+                                 + (" (generators as rows (x|z) of the Hamiltonian with terms (x|z) = rows of A)" if e["op"] == "symgen" else "")
+                                 + (f" (indicator of the selected rows) P={e['inp']} unit vector e_{e['val'] - 1} nodes={e['out2']}" if e["op"] == "rowsel" else ""),
                                  {"m": t["m"], "n": t["n"], "A": t["A"], "event": e})
         return out
 
@@ -579,7 +603,7 @@ class Run:
             t0 = time.time()
             traces = []
             for k, c in enumerate(cases[lo:lo + CHUNK]):
-                tr = exercise(c, self.kernel, self.agg, self.stats)
+                tr = exercise(c, self.kernel, self.agg, self.stats, symgen=self.symgen, rcmod=self.rcmod, rng=self.rng)
                 if trace_only is None or lo + k in trace_only:
                     traces.append(tr)
                 self.n_cases += 1
@@ -592,7 +616,7 @@ class Run:
 
 def run(tier, seed):
     rng = random.Random(seed)
-    R = Run(_kernel_fn())
+    R = Run(_kernel_fn(), _symgen_fn(), _rowcol_mod(), rng)
     shapes = [(m, n) for m in range(0, 4) for n in range(0, 5)]
     if tier == "quick":
         extra = random_matrices(rng, 120, 5, 6)
@@ -629,7 +653,14 @@ def run(tier, seed):
         picks = {tuple(rng.randint(0, 1) for _ in range(m)) for _ in range(6)} | {tuple([0] * m)}
         A = np.array(x["A"])
         picks |= {tuple(int(v) for v in (A @ np.array([rng.randint(0, 1) for _ in range(x["n"])])) % 2) for _ in range(3)}
-        traces.append(exercise(dict(x, rhs=[list(p) for p in sorted(picks)]), R.kernel, R.agg, R.stats, expect=False))
+        traces.append(exercise(dict(x, rhs=[list(p) for p in sorted(picks)]), R.kernel, R.agg, R.stats, expect=False,
+                               symgen=R.symgen, rcmod=R.rcmod, rng=rng))
+    # CNOT routing runs: every row selection made inside qp.transforms.rowcol, on seeded connectivity graphs
+    n_routes = 0
+    if R.rcmod is not None:
+        rt = rowcol_runs(R.rcmod, rng, 60 if tier == "quick" else 600, R.stats)
+        n_routes = len(rt)
+        traces += rt
     R.wall["implementation"] += time.time() - t0
     cv = R.validate(traces + [t for _, t in pos] + [t for _, t in neg], judge_n=len(traces))[len(traces):]
     for (name, _), (nf, cl) in zip(pos, cv[:len(pos)]):
@@ -641,6 +672,11 @@ def run(tier, seed):
     stats = R.stats
     if stats["square_regular"] < 100 or stats["indep_true"] < 100 or R.nontriv < 1000:
         raise lib.MachineryError(f"vacuous run: {dict(stats)}")
+    if R.symgen is not None and (stats["symgen_calls"] < 1000 or stats["symgen_rank_deficient"] < 100):
+        raise lib.MachineryError(f"vacuous run (symmetry generators): {dict(stats)}")
+    if R.rcmod is not None and (stats["rowsel_replayed_nontrivial"] < 100 or stats["rowsel_unsorted_order"] < 500
+                                or stats["rowsel_in_rowcol_unsorted_nontrivial"] < 20):
+        raise lib.MachineryError(f"vacuous run (RowCol row selections): {dict(stats)}")
     cov = {"states": R.g_states + R.t_states, "transitions": R.g_gen + R.t_gen,
            "traces_validated_against_impl": R.n_traces, "evaluations": R.n_events,
            "distinct_nontrivial": R.nontriv,
@@ -659,6 +695,19 @@ def run(tier, seed):
            "indep_in_domain": stats["indep_in_domain"], "indep_true": stats["indep_true"], "indep_false": stats["indep_false"],
            "indep_out_of_documented_domain": R.ood,
            "indep_out_of_domain_answer_differs_from_reference": R.oodw, "kernel_calls": stats["kernel_calls"],
+           "consumers": {
+               "symmetry_generators_available": R.symgen is not None, "symgen_calls": stats["symgen_calls"],
+               "symgen_rank_deficient_hamiltonians": stats["symgen_rank_deficient"],
+               "symgen_skipped_idle_qubit": stats["symgen_skipped_idle_qubit"],
+               "symgen_basis_differs_from_model": stats["symgen_basis_differs_from_model"],
+               "rowcol_get_S_available": R.rcmod is not None, "rowsel_calls": stats["rowsel_calls"],
+               "rowsel_replayed_nontrivial": stats["rowsel_replayed_nontrivial"],
+               "rowsel_unsorted_node_order": stats["rowsel_unsorted_order"], "rowsel_embedded_calls": stats["rowsel_embedded_calls"],
+               "rowcol_runs": n_routes, "rowsel_in_rowcol": stats["rowsel_in_rowcol"],
+               "rowsel_in_rowcol_unsorted_nontrivial": stats["rowsel_in_rowcol_unsorted_nontrivial"],
+               "rowcol_column_selections": stats["rowcol_column_selections"],
+               "rowcol_raised": {k.split(":", 1)[1]: v for k, v in stats.items() if k.startswith("rowcol_raised:")},
+               "rowsel_unreduced_input": stats["rowsel_unreduced_input"], "rowsel_singular_not_judged": R.rowsel_not_judged},
            "model_drift": R.drift, "input_mutated": stats["input_mutated"], "rref_inplace_differs": stats["rref_inplace_differs"],
            "rref_inplace_not_same_object": stats["rref_inplace_not_same_object"],
            "phase_wall_s": {k: round(v, 1) for k, v in R.wall.items()},
@@ -670,4 +719,10 @@ def run(tier, seed):
         "binary_is_independent is decided only when the basis columns are independent or spanning (documented precondition: "
         "rank min(r, m)); calls outside it are counted, not judged",
         "which basis binary_select_basis picks (greedy left to right) is mechanism: a different valid basis is drift",
+        "symmetry_generators: the Hamiltonian is a LinearCombination of Pauli words on wires 0..q-1 with unit coefficients, every "
+        "qubit acted on; WHICH basis of the symmetry group is returned is mechanism (counted); the generators must commute with "
+        "every term, generate the whole group and be independent",
+        "rowcol._get_S (private; skipped and reported when absent) is judged in row mode only, on regular matrices: the returned "
+        "set must be (support of the solution of P^T c = e_i, plus i) restricted to the node set; only the row selections made "
+        "inside qp.transforms.rowcol are judged, not the routed circuit (exceptions of the transform are counted)",
         "inputs are int64 numpy arrays"])
